@@ -1453,7 +1453,22 @@ func genAdvLpCase(r *rand.Rand, idx int) *lpCase {
 			f = make([]byte, r.Intn(60))
 			r.Read(f)
 		case 9: // LP frame without fragment (IDLE), with empty fragment, nested LP, fragmentation fields without sequence
-			switch r.Intn(4) {
+			switch r.Intn(6) {
+			case 4, 5: // IDLE LpPacket (no Fragment; with and without other headers) in one frame with a network packet: ReadPacket
+				// accepts the frame because of the packet, the link service then sees an LpPacket without fragment
+				idle := []byte{0x64, 0x00}
+				if r.Intn(2) == 0 {
+					idle = append([]byte{0x64, 0x0d}, 0x51, 0x08, 0, 0, 0, 0, 0, 0, 0, 9, 0x62, 0x01, 0x07)
+				}
+				w := interest
+				if r.Intn(2) == 0 {
+					w = data
+				}
+				if r.Intn(2) == 0 {
+					f = append(append([]byte{}, w...), idle...)
+				} else {
+					f = append(append([]byte{}, idle...), w...)
+				}
 			case 0:
 				f = []byte{0x64, 0x00}
 			case 1:
